@@ -94,6 +94,36 @@ theorem run_winv (steps : List Step) {s : St} (h : WInv s.sigs (pendOf s.pend) s
 
 end
 
+/-! ### concrete contents (for the witnesses and the examples of `Props/C09.lean`) -/
+
+/-- the content that stores the given `(room, entity, day)`-keyed signatures -/
+def contentOf (items : List (Key × Sig)) : Content :=
+  fun r e d => (items.filter fun x => x.1 = { room := r, ent := e, day := d }).map (·.2)
+
+theorem contentOf_absent (items : List (Key × Sig)) (k : Key) (h : k ∉ items.map (·.1)) :
+    contentOf items k.room k.ent k.day = [] := by
+  unfold contentOf
+  rw [List.map_eq_nil_iff, List.filter_eq_nil_iff]
+  intro x hx
+  have hne : x.1 ≠ k := fun e => h (e ▸ List.mem_map_of_mem hx)
+  simpa using hne
+
+/-- the marking discipline for a write that replaces the content `a` by the content `b`: it is enough to look at
+    the keys that occur in `a` or `b` (a decidable, finite condition) -/
+theorem contentOf_marks_ok (a b : List (Key × Sig)) (marks : List Key)
+    (h : ∀ k ∈ (a ++ b).map (·.1), contentOf b k.room k.ent k.day ≠ contentOf a k.room k.ent k.day → k ∈ marks) :
+    ∀ r e d, contentOf b r e d ≠ contentOf a r e d → pendOf marks r e d := by
+  intro r e d hne
+  by_cases hk : ({ room := r, ent := e, day := d } : Key) ∈ (a ++ b).map (·.1)
+  · exact h _ hk hne
+  · exfalso
+    apply hne
+    have ha : ({ room := r, ent := e, day := d } : Key) ∉ a.map (·.1) := fun x => hk (by
+      rw [List.map_append]; exact List.mem_append_left _ x)
+    have hb : ({ room := r, ent := e, day := d } : Key) ∉ b.map (·.1) := fun x => hk (by
+      rw [List.map_append]; exact List.mem_append_right _ x)
+    rw [contentOf_absent a _ ha, contentOf_absent b _ hb]
+
 theorem init_winv : WInv St.init.sigs (pendOf St.init.pend) St.init.log :=
   ⟨List.Pairwise.nil, by simp [St.init], by simp [St.init]⟩
 
